@@ -5,11 +5,11 @@ after every step the projection of every live object (fields read back, whether
 '_hash_value' is in the instance __dict__, the cached hash).  Raw 64-bit hashes
 and trees are interned per trace into small ids (first occurrence order).
 
-Every trace that involves an undecorated class (one whose instances run the generated
-__eq__/__hash__ of a decorated ancestor) starts from the pristine class state: the user
-class hierarchy is created anew for it and, when the built-in undecorated class
-MultiVectorVariable or a subclass of it is involved, the trace runs in a forked child of
-the worker process, which itself never hashes or compares an instance of such a class.
+Every trace starts from the pristine class state: the user classes it mentions (and
+their user bases) are created anew for it and, when the built-in undecorated class
+MultiVectorVariable (one whose instances run the generated __eq__/__hash__ of a decorated
+ancestor) or a subclass of it is involved, the trace runs in a forked child of the
+worker process, which itself never hashes or compares an instance of such a class.
 Whatever pymbolic remembers per class about earlier use is then in its initial state,
 and the order in which a history first uses the classes is the order pymbolic sees.  Objects that "arrive from another interpreter" are built (and, if the history
 says so, hashed) and pickled by a helper interpreter running with a different
@@ -36,98 +36,147 @@ class CStr(str):
         return 7
 
 
-def _classes():
-    """Built-in node classes + the user hierarchy templates, materialised once per
-    process with type() / expr_dataclass()."""
-    global _CLS
-    if _CLS is not None:
-        return _CLS
-    import pymbolic.primitives as p
+def _mk_URoot(g):
     from pymbolic.primitives import Expression, expr_dataclass
+    return expr_dataclass()(type("URoot", (Expression,),
+                                 {"__annotations__": {"u": object, "v": object}}))
+
+
+def _mk_UChild(g):
+    from pymbolic.primitives import expr_dataclass
+    return expr_dataclass()(type("UChild", (g("URoot"),), {"__annotations__": {"w": object}}))
+
+
+def _mk_ULeg(g):
+    from pymbolic.primitives import Expression
+
+    def leg_init(self, u, v):
+        self.u = u
+        self.v = v
+
+    return type("ULeg", (Expression,), {
+        "init_arg_names": ("u", "v"),
+        "__init__": leg_init,
+        "__getinitargs__": lambda self: (self.u, self.v),
+        "mapper_method": "map_uleg"})
+
+
+def _legacy_uvw(name, base):
+    def init(self, u, v, w):
+        base.__init__(self, u, v)
+        self.w = w
+
+    return type(name, (base,), {
+        "init_arg_names": ("u", "v", "w"),
+        "__init__": init,
+        "__getinitargs__": lambda self: (self.u, self.v, self.w)})
+
+
+def _mk_ULegChild(g):
+    return _legacy_uvw("ULegChild", g("URoot"))
+
+
+def _mk_ULegGrand(g):
+    return _legacy_uvw("ULegGrand", g("UPlain"))
+
+
+def _mk_ULegGrandD(g):
+    UChild = g("UChild")
+
+    def init(self, u, v, w, x):
+        UChild.__init__(self, u, v, w)
+        self.x = x
+
+    return type("ULegGrandD", (UChild,), {
+        "init_arg_names": ("u", "v", "w", "x"),
+        "__init__": init,
+        "__getinitargs__": lambda self: (self.u, self.v, self.w, self.x)})
+
+
+def _mk_UMVTag(g):
+    from pymbolic.geometric_algebra.primitives import MultiVectorVariable
+
+    def init(self, name, tag):
+        MultiVectorVariable.__init__(self, name)
+        self.tag = tag
+
+    return type("UMVTag", (MultiVectorVariable,), {
+        "init_arg_names": ("name", "tag"),
+        "__init__": init,
+        "__getinitargs__": lambda self: (self.name, self.tag)})
+
+
+def _mk_UVar(g):
+    import pymbolic.primitives as p
+    return type("UVar", (p.Variable,), {})
+
+
+def _mk_UTagVar(g):
+    import pymbolic.primitives as p
+    return p.expr_dataclass()(type("UTagVar", (p.Variable,), {"__annotations__": {"tag": object}}))
+
+
+def _mk_UInit(g):
+    from pymbolic.primitives import Expression, expr_dataclass
+
+    def uinit_init(self, u, v):
+        object.__setattr__(self, "u", u)
+        object.__setattr__(self, "v", v)
+
+    return expr_dataclass(init=False)(type("UInit", (Expression,), {
+        "__annotations__": {"u": object, "v": object}, "__init__": uinit_init}))
+
+
+_MAKERS = {
+    "URoot": _mk_URoot, "UChild": _mk_UChild, "ULeg": _mk_ULeg, "ULegChild": _mk_ULegChild,
+    "UPlain": lambda g: type("UPlain", (g("URoot"),), {}),
+    "UPlain2": lambda g: type("UPlain2", (g("UPlain"),), {}),
+    "ULegChildPlain": lambda g: type("ULegChildPlain", (g("ULegChild"),), {}),
+    "ULegGrand": _mk_ULegGrand, "ULegGrandD": _mk_ULegGrandD, "UMVTag": _mk_UMVTag,
+    "UVar": _mk_UVar, "UTagVar": _mk_UTagVar, "UInit": _mk_UInit,
+}
+_BUILTIN = None
+
+
+def _classes(fresh_for=None):
+    """(name -> class, class -> name) for the built-in node classes + the user hierarchy
+    templates, materialised with type() / expr_dataclass().  fresh_for = a collection of
+    class names: those user classes (and the user classes they derive from) are created
+    anew - nothing has ever run on them; the others stay as they are."""
+    global _CLS, _BUILTIN
+    if _CLS is not None and fresh_for is None:
+        return _CLS
+    if _BUILTIN is None:
+        import pymbolic.primitives as p
+        from pymbolic.geometric_algebra.primitives import MultiVectorVariable
+        _BUILTIN = {"MultiVectorVariable": MultiVectorVariable}
+        for name in ("Variable Wildcard DotWildcard StarWildcard FunctionSymbol Leaf AlgebraicLeaf "
+                     "Call CallWithKwargs Subscript Lookup Sum Product Min Max BitwiseOr BitwiseXor "
+                     "BitwiseAnd LogicalOr LogicalAnd Slice Quotient FloorDiv Remainder QuotientBase "
+                     "Power LeftShift RightShift BitwiseNot LogicalNot Comparison If "
+                     "CommonSubexpression Substitution Derivative NaN").split():
+            _BUILTIN[name] = getattr(p, name)
+    old = dict(_CLS[0]) if _CLS is not None else dict(_BUILTIN)
+    made = {}
+
+    def get(name):
+        if name not in made:
+            c = _MAKERS[name](get)
+            # pickle finds classes by module attribute
+            c.__module__ = __name__
+            c.__qualname__ = name
+            globals()[name] = c
+            made[name] = c
+        return made[name]
 
     with warnings.catch_warnings():
         warnings.simplefilter("ignore")
-        URoot = expr_dataclass()(type("URoot", (Expression,),
-                                      {"__annotations__": {"u": object, "v": object}}))
-        UChild = expr_dataclass()(type("UChild", (URoot,),
-                                       {"__annotations__": {"w": object}}))
-
-        def leg_init(self, u, v):
-            self.u = u
-            self.v = v
-
-        ULeg = type("ULeg", (Expression,), {
-            "init_arg_names": ("u", "v"),
-            "__init__": leg_init,
-            "__getinitargs__": lambda self: (self.u, self.v),
-            "mapper_method": "map_uleg"})
-
-        def legchild_init(self, u, v, w):
-            URoot.__init__(self, u, v)
-            self.w = w
-
-        ULegChild = type("ULegChild", (URoot,), {
-            "init_arg_names": ("u", "v", "w"),
-            "__init__": legchild_init,
-            "__getinitargs__": lambda self: (self.u, self.v, self.w)})
-        UPlain = type("UPlain", (URoot,), {})
-        UVar = type("UVar", (p.Variable,), {})
-        UTagVar = expr_dataclass()(type("UTagVar", (p.Variable,),
-                                        {"__annotations__": {"tag": object}}))
-
-        def uinit_init(self, u, v):
-            object.__setattr__(self, "u", u)
-            object.__setattr__(self, "v", v)
-
-        UInit = expr_dataclass(init=False)(type("UInit", (Expression,), {
-            "__annotations__": {"u": object, "v": object}, "__init__": uinit_init}))
-        # three-level hierarchies
-        from pymbolic.geometric_algebra.primitives import MultiVectorVariable
-        UPlain2 = type("UPlain2", (UPlain,), {})
-
-        def leggrand_init(self, u, v, w):
-            UPlain.__init__(self, u, v)
-            self.w = w
-
-        ULegGrand = type("ULegGrand", (UPlain,), {
-            "init_arg_names": ("u", "v", "w"),
-            "__init__": leggrand_init,
-            "__getinitargs__": lambda self: (self.u, self.v, self.w)})
-
-        def leggrandd_init(self, u, v, w, x):
-            UChild.__init__(self, u, v, w)
-            self.x = x
-
-        ULegGrandD = type("ULegGrandD", (UChild,), {
-            "init_arg_names": ("u", "v", "w", "x"),
-            "__init__": leggrandd_init,
-            "__getinitargs__": lambda self: (self.u, self.v, self.w, self.x)})
-        ULegChildPlain = type("ULegChildPlain", (ULegChild,), {})
-
-        def mvtag_init(self, name, tag):
-            MultiVectorVariable.__init__(self, name)
-            self.tag = tag
-
-        UMVTag = type("UMVTag", (MultiVectorVariable,), {
-            "init_arg_names": ("name", "tag"),
-            "__init__": mvtag_init,
-            "__getinitargs__": lambda self: (self.name, self.tag)})
-    tab = {"URoot": URoot, "UChild": UChild, "ULeg": ULeg, "ULegChild": ULegChild,
-           "UPlain": UPlain, "UVar": UVar, "UTagVar": UTagVar, "UInit": UInit,
-           "UPlain2": UPlain2, "ULegGrand": ULegGrand, "ULegGrandD": ULegGrandD,
-           "ULegChildPlain": ULegChildPlain, "UMVTag": UMVTag}
-    # pickle finds classes by module attribute
-    for name, c in tab.items():
-        c.__module__ = __name__
-        c.__qualname__ = name
-        globals()[name] = c
-    tab["MultiVectorVariable"] = MultiVectorVariable
-    for name in ("Variable Wildcard DotWildcard StarWildcard FunctionSymbol Leaf AlgebraicLeaf "
-                 "Call CallWithKwargs Subscript Lookup Sum Product Min Max BitwiseOr BitwiseXor "
-                 "BitwiseAnd LogicalOr LogicalAnd Slice Quotient FloorDiv Remainder QuotientBase "
-                 "Power LeftShift RightShift BitwiseNot LogicalNot Comparison If "
-                 "CommonSubexpression Substitution Derivative NaN").split():
-        tab[name] = getattr(p, name)
+        for name in _MAKERS:
+            if fresh_for is None or name in fresh_for:
+                get(name)
+    # (a user class that was not re-created keeps deriving from the previous incarnation
+    # of its base: every history gets all the user classes it mentions, and their bases, anew)
+    tab = {**old, **made}
     _CLS = (tab, {v: k for k, v in tab.items()})
     return _CLS
 
@@ -464,20 +513,14 @@ def _drive_inproc(case, blobs, fresh):
     evs = []
     with warnings.catch_warnings():
         warnings.simplefilter("ignore")
-        if fresh:
-            _CLS = None     # brand-new user classes: nothing has ever run on them
-            _classes()
+        if fresh:           # brand-new user classes: nothing has ever run on them
+            _classes(fresh_for={n for n in _MAKERS if _mentions(
+                [ev["spec"] for ev in case["hist"] if ev["op"] == "New"], {n})})
         for ev in case["hist"]:
             r = _step(tr, ev)
             r["proj"] = tr.proj()
             evs.append({"ev": ev, "r": r})
     return {"id": case["id"], "sweep": case["sweep"], "trees": tr.trees, "evs": evs}
-
-
-# undecorated classes: their instances run the generated functions of a decorated
-# ancestor, which is where pymbolic could remember something per class
-UNDECORATED = {"UPlain", "UPlain2", "UVar", "MultiVectorVariable", "ULegChild", "ULegGrand",
-               "ULegGrandD", "ULegChildPlain", "UMVTag"}
 
 
 def _mentions(v, names):
@@ -488,27 +531,27 @@ def _mentions(v, names):
     return False
 
 
-# ... of which these cannot be re-created by the driver
+# built-in undecorated class (its instances run the generated functions of the decorated
+# Variable, which is where pymbolic could remember something per class) and its user
+# subclass: these cannot be re-created by the driver
 BUILTIN_UNDECORATED = {"MultiVectorVariable", "UMVTag"}
 
 
 def drive_case(case, extra):
-    """case = {"id", "sweep", "hist": [events]} -> recorded trace.  A history that
-    touches an undecorated class anywhere starts from the pristine class state: the
-    user hierarchy is created anew for it, and if a built-in undecorated class (or a
-    subclass of one) is involved it runs in a forked child of the worker, which itself
-    never uses such a class.  (A fork per trace for *all* histories costs minutes on a
-    busy machine.)"""
+    """case = {"id", "sweep", "hist": [events]} -> recorded trace.  Every history starts
+    from the pristine class state of the user classes it mentions (they and their user
+    bases are created anew for it), and if a built-in undecorated class (or a subclass
+    of one) is involved it runs in a forked child of the worker, which itself never
+    uses such a class.  (A fork per trace for *all* histories costs minutes on a busy
+    machine.)"""
     with warnings.catch_warnings():
         warnings.simplefilter("ignore")
         _classes()      # an import error of pymbolic is a machinery failure, not an observation
     blobs = dict(_foreign_blob(ev["spec"], ev["md"])
                  for ev in case["hist"] if ev["op"] == "New" and ev["md"])
     specs = [ev["spec"] for ev in case["hist"] if ev["op"] == "New"]
-    if not _mentions(specs, UNDECORATED):
-        return _drive_inproc(case, blobs, False)
     if not _mentions(specs, BUILTIN_UNDECORATED):
-        return _drive_inproc(case, blobs, True)
+        return _drive_inproc(case, blobs, _mentions(specs, set(_MAKERS)))
     rfd, wfd = os.pipe()
     pid = os.fork()
     if pid == 0:
